@@ -18,9 +18,9 @@ ASSUMPTIONS = ["well-formed, K1-free traces (hv/wf.py)", "attributes are judged 
 FLOAT_KEYS = ["files"]          # fractional-time-unit workload class (hv/shard.py)
 PLAN = {"quick": {"shards": 16, "cases": 640, "timeout": 900}, "thorough": {"shards": 16, "cases": 5000, "timeout": 3400}}
 FLOORS = {"quick": {"distinct_nontrivial": 100, "host_rows_judged": 8000, "device_rows_judged": 2500, "autograd_cases": 30,
-                    "bwd_ops_reparented": 40, "bwd_ops_left_alone": 40, "tiny_timestamp_traces": 40},
+                    "bwd_ops_reparented": 40, "bwd_ops_left_alone": 40, "tiny_timestamp_traces": 40, "call_graphs_from_dataframe": 100},
           "thorough": {"distinct_nontrivial": 1500, "host_rows_judged": 120000, "device_rows_judged": 40000, "autograd_cases": 450,
-                       "bwd_ops_reparented": 600, "bwd_ops_left_alone": 600, "tiny_timestamp_traces": 600}}
+                       "bwd_ops_reparented": 600, "bwd_ops_left_alone": 600, "tiny_timestamp_traces": 600, "call_graphs_from_dataframe": 1500}}
 
 
 def gen_case(rnd, tier: str, i: Any) -> Dict[str, Any]:
@@ -37,7 +37,7 @@ def gen_case(rnd, tier: str, i: Any) -> Dict[str, Any]:
         files[f"rank{r}.json"] = tr
     # history: the call graph may be built more than once over the same loaded Trace (every call of
     # get_frequent_cuda_kernel_sequences does it)
-    return {"files": files, "builds": rnd.choice([1, 1, 2, 3])}
+    return {"files": files, "builds": rnd.choice([1, 1, 2, 3]), "from_df": rnd.random() < 0.3}
 
 
 def run_case(case: Dict[str, Any], ctx: Any) -> core.CaseResult:
@@ -73,6 +73,19 @@ def run_case(case: Dict[str, Any], ctx: Any) -> core.CaseResult:
                 continue
             if _judge_rank(r, m, ld, cg, res):
                 nontrivial = True
+        if case.get("from_df"):
+            # the same call graph built from one rank's frame alone (CallGraph.from_dataframe, with and without the table)
+            r = sorted(models)[-1]
+            if ld.kept[r]:
+                for with_table in (True, False):
+                    src = t.get_trace(r)[["index", "ts", "dur", "end", "pid", "tid", "stream", "index_correlation", "name", "cat", "correlation", "iteration"]].copy()
+                    if not with_table:
+                        t.symbol_table.decode_df(src, create_new_columns=False)
+                    ok, cg2 = drv.guard(res, f"CallGraph.from_dataframe({'with' if with_table else 'without'} symbol table)", CallGraph.from_dataframe,
+                                        src, t.symbol_table if with_table else None, r)
+                    if ok:
+                        res.counters["call_graphs_from_dataframe"] += 1
+                        _judge_rank(r, models[r], ld, cg2, res)
         res.nontrivial = nontrivial and ld.min_ts != 0
         res.trivial_reason = "no host event with >= 2 device descendants at depth >= 2, or zero epoch offset"
         res.key = core.digest(case["files"])
